@@ -50,10 +50,10 @@ func (o *bloomObj) item(b []byte) []byte {
 type bloomObj struct {
 	scratch []byte
 	hashVar chainhash.Hash
-	dead bool // an earlier op panicked or hung (possibly while holding the filter mutex)
-	f    *bloom.Filter
-	prev []byte // snapshot of the filter bytes after the previous event
-	had  bool
+	dead    bool // an earlier op panicked or hung (possibly while holding the filter mutex)
+	f       *bloom.Filter
+	prev    []byte // snapshot of the filter bytes after the previous event
+	had     bool
 }
 
 func snapshot(f *bloom.Filter) (msg *wire.MsgFilterLoad, bytes []byte) {
